@@ -2,6 +2,8 @@ import Driver.Proto
 import PqModel.Seek
 import PqModel.SliceRepeated
 import PqModel.SeekLayers
+import PqModel.SeekColumn
+import PqModel.MultiNest
 import PqModel.ReaderSeek
 import PqModel.ReaderCursor
 import PqModel.ReadRowsValues
@@ -135,6 +137,60 @@ def handleLayers (toks : List String) : Option String :=
     | _, _, _, _ => "bad-op"
   | _ => none
 
+/-! ### `Column.Pages()` and nested multi row groups: `column.run`, `nested.run` -/
+open PqModel.SeekLayers.Nest in
+/-- parser state of a nest expression: open `MultiRowGroup(` calls, chunk readers not yet used -/
+structure NestP where
+  stack : List (List (Node Machine.{0}))
+  rest : List Machine.{0}
+  inNum : Bool
+  ok : Bool
+
+open PqModel.SeekLayers.Nest in
+/-- `(a,b,...)` = `MultiRowGroup(a,b,...)` evaluated by the mirror of `init`; a number = the next
+    chunk reader (leaves are taken from left to right) -/
+def nestStep (p : NestP) (ch : Char) : NestP :=
+  if ch.isDigit then
+    if p.inNum then p else
+      match p.rest, p.stack with
+      | m :: ms, top :: st => { p with stack := (top ++ [.leaf m]) :: st, rest := ms, inNum := true }
+      | _, _ => { p with ok := false }
+  else if ch == '(' then { p with stack := [] :: p.stack, inNum := false }
+  else if ch == ')' then
+    match p.stack with
+    | gs :: top :: st =>
+      if gs.length < 2 then { p with ok := false }
+      else { p with stack := (top ++ [.multi (initM (·.total) gs)]) :: st, inNum := false }
+    | _ => { p with ok := false }
+  else if ch == ',' then { p with inNum := false }
+  else { p with ok := false }
+
+open PqModel.SeekLayers.Nest in
+def parseNest? (expr : String) (ms : List Machine.{0}) : Option (MCC Machine.{0}) :=
+  let p := expr.toList.foldl nestStep { stack := [[]], rest := ms, inNum := false, ok := true }
+  match p.ok, p.rest, p.stack with
+  | true, [], [[.multi c]] => some c
+  | _, _, _ => none
+
+def handleNested (toks : List String) : Option String :=
+  match toks with
+  -- `column.run <chunk|chunk|...> <with-index 0/1> <ops>`: columnPages (Column.Pages()) over the
+  -- chunks of one column in every row group
+  | ["column.run", chunks, idx, ops] => some <|
+    match parseChunks? chunks (idx == "1"), parseList? parseOp? ops with
+    | some ms, some os => "ok " ++ " ".intercalate (((columnM ms).outs (columnM ms).init os).map showROut)
+    | _, _ => "bad-op"
+  -- `nested.run <nest expression> <chunk|chunk|...> <with-index 0/1> <ops>`: multiPages of the column
+  -- of MultiRowGroup calls nested as the expression says (leaf i = chunk i)
+  | ["nested.run", expr, chunks, idx, ops] => some <|
+    match parseChunks? chunks (idx == "1"), parseList? parseOp? ops with
+    | some ms, some os =>
+      match parseNest? expr ms with
+      | some c => "ok " ++ " ".intercalate ((Nest.outs c (multiM c.chunks).init os).map showROut)
+      | none => "bad-op"
+    | _, _ => "bad-op"
+  | _ => none
+
 /-! ### the deprecated `Reader` (two row readers, one cursor): `readerx.run` -/
 open PqModel.ReaderCursor in
 /-- `rowGroupRows` over the column machines, as the executable part of a row reader -/
@@ -218,7 +274,7 @@ def handleValues (toks : List String) : Option String :=
   | _ => none
 
 def handle (toks : List String) : Option String :=
-  ((handleBase toks).orElse fun _ => handleLayers toks).orElse fun _ =>
-    (handleCursor toks).orElse fun _ => handleValues toks
+  (((handleBase toks).orElse fun _ => handleLayers toks).orElse fun _ =>
+    (handleCursor toks).orElse fun _ => handleValues toks).orElse fun _ => handleNested toks
 
 end Driver.Ops.C08
